@@ -37,7 +37,7 @@ def run(ctx):
             f.write("N %s\nEND\n" % " ".join(str(v) for row in c["N"] for v in row))
     # block-diagonal kernel: exact band blocks B = U'U with their factor from spec/BlockDiag.tla
     bcfg = os.path.join(vlib.SPEC, "_bd.cfg")
-    bconsts = {"MaxDim": 4 if q else 5, "Diags": "{1, 2}" if q else "{1, 2, 3}", "Keep": 29 if q else 7, "KeepZ": 7 if q else 2, "Seed": ctx.seed}
+    bconsts = {"MaxDim": 4, "Diags": "{1, 2}" if q else "{1, 2, 3}", "Keep": 29 if q else 5, "KeepZ": 7 if q else 2, "Seed": ctx.seed}      # dim 5 x band 4 would be 1.4e7 states
     with open(bcfg, "w") as f:
         f.write("SPECIFICATION Spec\nCONSTANTS\n" + "".join("  %s = %s\n" % kv for kv in bconsts.items()) + "INVARIANT Emit\nINVARIANT Laws\nCHECK_DEADLOCK FALSE\n")
     rb = vlib.tlc("BlockDiag", "_bd.cfg", timeout=2400)
